@@ -157,6 +157,9 @@ def rewrite_body(s):
     # x.neg() on a local -> (-x)
     s, k = re.subn(r'(?<![A-Za-z0-9_.])([a-z_][a-z0-9_]*)\.neg\(\)', r'(-\1)', s)
     _count('R10.neg', k)
+    # R15: `loop { if C { break; } REST }` -> `while !(C) { REST }` (the definition of `while`); keeps loop
+    # contracts, which are woven by loop ordinal and rely on the exit condition, valid for both spellings
+    s = rewrite_loop_break(s)
     # R13: Option::map with a closure -> its definition as a match (Verus does not infer closure specs)
     s = rewrite_map_closure(s)
     # R21: bool::then with a closure -> its definition (parser.rs read_u64), same reason as R13
@@ -181,12 +184,61 @@ def rewrite_body(s):
     return s
 
 
-def rewrite_map_closure(s):
+def rewrite_loop_break(s):
+    pos = 0
     while True:
-        m = re.search(r'\.map\(\|([a-z_][a-z0-9_]*)\|', s)
+        m = re.compile(r'(?<![A-Za-z0-9_\'])loop\s*\{\s*if\s').search(s, pos)
         if not m:
             return s
-        op = m.start() + len('.map')
+        lb = s.index('{', m.start())
+        try:
+            lend = rsx.match_close(s, lb)
+        except AnchorLost:
+            return s
+        # condition: from after `if` to the '{' that opens the if-body (depth 0 w.r.t. parens)
+        i = m.end()
+        depth = 0
+        j = i
+        ok = False
+        while j < lend:
+            ch = s[j]
+            if ch in '([':
+                depth += 1
+            elif ch in ')]':
+                depth -= 1
+            elif ch == '{' and depth == 0:
+                ok = True
+                break
+            j += 1
+        if not ok:
+            pos = m.end()
+            continue
+        cond = s[i:j].strip()
+        bend = rsx.match_close(s, j)
+        body = s[j + 1:bend - 1].strip()
+        after = s[bend:lend - 1]
+        if body not in ('break;', 'break') or re.match(r'\s*else\b', after) or '{' in cond \
+                or re.search(r'(?<![A-Za-z0-9_])continue(?![A-Za-z0-9_])', after) or re.search(r"break\s+'", after):
+            pos = m.end()
+            continue
+        _count('R15.loop_break')
+        s = s[:m.start()] + 'while !(' + cond + ') {' + after + '}' + s[lend:]
+        pos = m.start() + 5
+
+
+def rewrite_map_closure(s):
+    s = _rewrite_closure_call(s, 'map', lambda recv, pat, body: '(match %s { Some(%s) => Some(%s), None => None })' % (recv, pat, body))
+    # Result::map_err with a closure -> its definition as a match
+    s = _rewrite_closure_call(s, 'map_err', lambda recv, pat, body: '(match %s { Ok(v__) => Ok(v__), Err(%s) => Err(%s) })' % (recv, pat, body))
+    return s
+
+
+def _rewrite_closure_call(s, method, build):
+    while True:
+        m = re.search(r'\.%s\(\|([a-z_][a-z0-9_]*)\|' % method, s)
+        if not m:
+            return s
+        op = m.start() + len('.' + method)
         end = rsx.match_close(s, op)
         body = s[m.end():end - 1].strip()
         # receiver: scan backwards to an unbalanced opener or a statement boundary
@@ -202,14 +254,16 @@ def rewrite_map_closure(s):
                 depth -= 1
             elif ch in ';=,' and depth == 0:
                 break
+            elif ch == '>' and i > 0 and s[i - 1] == '=' and depth == 0:
+                break          # `=>` of a match arm
             i -= 1
         recv = s[i + 1:m.start()]
         lead = recv[:len(recv) - len(recv.lstrip())]
         recv = recv.strip()
         if not recv:
             raise AnchorLost('R13: empty receiver for .map(closure)')
-        _count('R13.map_closure')
-        repl = '%s(match %s { Some(%s) => Some(%s), None => None })' % (lead, recv, m.group(1), body)
+        _count('R13.%s_closure' % method)
+        repl = lead + build(recv, m.group(1), body)
         s = s[:i + 1] + repl + s[end:]
 
 
@@ -234,6 +288,8 @@ def rewrite_then_closure(s):
                 depth -= 1
             elif ch in ';=,' and depth == 0:
                 break
+            elif ch == '>' and i > 0 and s[i - 1] == '=' and depth == 0:
+                break          # `=>` of a match arm
             i -= 1
         recv = s[i + 1:m.start()]
         lead = recv[:len(recv) - len(recv.lstrip())]
